@@ -127,11 +127,28 @@ def _stored(fmt):
     return _STORED[fmt]
 
 
-def _file(fmt, nf, na, cell, seed, idx=0, rows=None, stored=False):
+def _rewrite_trr_with_vf(fn, tr, vf, seed):
+    """the same frames as GROMACS writes them when velocities and / or forces are saved too (mdtraj's public writer stores
+    coordinates only; its reader has to step over the extra blocks)"""
+    from mdtraj.formats import TRRTrajectoryFile
+    rng = np.random.Generator(np.random.PCG64(seed + 777))
+    n, a = tr.n_frames, tr.n_atoms
+    box = np.zeros((n, 3, 3), dtype=np.float32) if tr.unitcell_vectors is None else np.ascontiguousarray(tr.unitcell_vectors, dtype=np.float32)
+    extra = {}
+    if "v" in vf:
+        extra["vel"] = rng.normal(0, 1, (n, a, 3)).astype(np.float32)
+    if "f" in vf:
+        extra["forces"] = rng.normal(0, 100, (n, a, 3)).astype(np.float32)
+    with TRRTrajectoryFile(fn, "w", force_overwrite=True) as fh:
+        fh._write(np.ascontiguousarray(tr.xyz, dtype=np.float32), np.ascontiguousarray(tr.time, dtype=np.float32),
+                  np.arange(n, dtype=np.int32), box, np.zeros(n, dtype=np.float32), **extra)
+
+
+def _file(fmt, nf, na, cell, seed, idx=0, rows=None, stored=False, trr_vf=None):
     """saved test file + its full load, cached per process"""
     if stored:
         return _stored(fmt)
-    key = (fmt, nf, na, cell, seed, idx, rows)
+    key = (fmt, nf, na, cell, seed, idx, rows, trr_vf)
     if key in _CACHE:
         return _CACHE[key][1:]
     base = "/dev/shm" if os.access("/dev/shm", os.W_OK) else os.path.join(files.VERIF, ".scratch")
@@ -143,12 +160,17 @@ def _file(fmt, nf, na, cell, seed, idx=0, rows=None, stored=False):
     with warnings.catch_warnings():
         warnings.simplefilter("ignore")
         tr.save(fn)
+    if trr_vf:
+        plain_full = files.load(fn, fmt, tr.topology)
+        _rewrite_trr_with_vf(fn, tr, trr_vf, seed + idx)
     if rows == "shuffled":
         sorted_full = files.load(fn, fmt, tr.topology)
         _shuffle_lammpstrj_rows(fn, seed + idx)
     full = files.load(fn, fmt, tr.topology)
     if rows == "shuffled":
         full._row_order_diff = files.traj_diff(full, sorted_full)
+    if trr_vf:
+        full._vf_diff = files.traj_diff(full, plain_full)
     _CACHE[key] = (d, fn, tr, full)
     return fn, tr, full
 
@@ -176,6 +198,8 @@ def strategy(draw, tier="quick"):
     case = {"fmt": fmt, "nf": nf, "na": na, "cell": cell, "seed": draw(st.integers(0, 3)), "op": op}
     if fmt == "lammpstrj" and na >= 2 and draw(st.booleans()):
         case["rows"] = "shuffled"       # a dump as LAMMPS writes it without `dump_modify sort id`
+    if fmt == "trr" and draw(st.booleans()):
+        case["trr_vf"] = draw(st.sampled_from(["v", "f", "vf"]))       # a TRR file as GROMACS writes it with nstvout / nstfout > 0
     if fmt in ("h5", "xtc", "trr", "dcd", "nc", "netcdf", "xyz", "mdcrd", "lammpstrj", "gro") and draw(st.integers(0, 11)) == 0:
         # a long generated file: more frames than any internal block size is likely to be (256, 512, 1000); coarse requests only
         nf = draw(st.sampled_from([513, 600, 1030]))
@@ -286,11 +310,15 @@ def _run_case(case):
     _trim_cache()
     viol, labels = [], ["fmt:" + case["fmt"], "op:" + case["op"]] + list(case.get("excluded", []))
     fmt, nf, na = case["fmt"], case["nf"], case["na"]
-    fn, tr, full = _file(fmt, nf, na, case["cell"], case["seed"], rows=case.get("rows"), stored=case.get("stored", False))
+    fn, tr, full = _file(fmt, nf, na, case["cell"], case["seed"], rows=case.get("rows"), stored=case.get("stored", False), trr_vf=case.get("trr_vf"))
     if case.get("long"):
         labels.append("long-file:%d" % case["nf"])
     if case.get("stored"):
         labels.append("stored-foreign-file")
+    if case.get("trr_vf"):
+        labels.append("trr-with:" + case["trr_vf"])
+        if getattr(full, "_vf_diff", None):
+            viol.append(("trr/velocity-force-blocks-change-the-frames", "the same frames stored with velocities / forces load differently: %s" % full._vf_diff))
     if case.get("rows"):
         labels.append("rows:" + case["rows"])
         if getattr(full, "_row_order_diff", None):
@@ -329,7 +357,7 @@ def _run_case(case):
                 k = case["k"]
                 fns, fulls, fulls_all = [], [], []
                 for j in range(k):
-                    f_j, _t, full_j = _file(fmt, nf, na, case["cell"], case["seed"], idx=j, rows=case.get("rows"), stored=case.get("stored", False))
+                    f_j, _t, full_j = _file(fmt, nf, na, case["cell"], case["seed"], idx=j, rows=case.get("rows"), stored=case.get("stored", False), trr_vf=case.get("trr_vf"))
                     fns.append(f_j)
                     fulls.append(full_j[::stride])
                     fulls_all.append(full_j)
